@@ -9,7 +9,7 @@ From Coq Require Import List ZArith Bool.
 From PV Require Import lib.Sx lib.Str lib.Result model.TextNodes model.TextRead.
 From PV Require Import spec.SpecTextXml spec.SpecTextLines spec.SpecTextRead.
 From PV Require Import proofs.TextXmlFacts proofs.TextReadVttFacts proofs.TextReadVttTagFacts proofs.TextReadFacts.
-From PV Require Import proofs.TextReadVttDocFacts model.GenText proofs.TextReadEndFacts proofs.TextReadEndVttFacts.
+From PV Require Import proofs.TextReadVttDocFacts model.GenText proofs.TextReadEndFacts proofs.TextReadEndVttFacts proofs.TextReadEndXmlFacts.
 Import ListNotations.
 Open Scope Z_scope.
 
@@ -216,3 +216,20 @@ Proof. exact vtt_example_shows. Qed.
 Example C04_example_plain_domain :
   forallb (plain_ok 10) [ITxt [(97, 0); (38, 1)]; IOpen 0; IWrap 3; IEnt (lit "eacute") 233; IClose 0; IBr; ITxt [(60, 2)]] = true.
 Proof. exact plain_ok_example. Qed.
+
+(* DFXP at tree level.  FULL statement (not proved): ok_lines_a (display items) (node_lines ns) for read_dfxp true items = Some ns.
+   PROVED PART, for ALL item lists: with the tree-building library as the stated boundary (read_dfxp starts from the spec tree
+   tree_of, which the harness compares with BeautifulSoup's), the nodes the reader model returns show every non-white-space
+   character of the cue and every line break, in order (item_flat = displayed text with a mark per break; vis filters white
+   space).  Entities, comments, PIs, spans, source wraps: all covered.  Blind to white space, hence to the known finding
+   "words glued at a wrap next to an inline element". *)
+Theorem C04_dfxp_tree_visible_partial : forall items ns, read_dfxp true items = Some ns ->
+  vis (node_flat ns) = vis (item_flat items).
+Proof. exact dfxp_tree_visible. Qed.
+Print Assumptions C04_dfxp_tree_visible_partial.
+
+Example C04_example_dfxp_tree :
+  read_dfxp true [ITxt [(97, 0); (38, 1)]; IWrap 3; IOpen 0; ITxt [(98, 2)]; IClose 0; IBr; ICom (lit " c "); IEnt (lit "x") 99]
+  = Some [NText (lit "a&"); NStyle true (mkStyle true false false None); NText (lit "b"); NStyle false (mkStyle true false false None);
+          NBreak; NText (lit "c")].
+Proof. exact dfxp_tree_example. Qed.
